@@ -25,6 +25,7 @@ ENV = dict(os.environ)
 ENV["CARGO_NET_OFFLINE"] = "true"
 ENV.setdefault("RUSTFLAGS", "--cfg " + GUARD)
 ENV["RUST_BACKTRACE"] = "0"
+ENV["VERIF_WORK"] = WORK
 
 
 def log(*a):
